@@ -126,14 +126,19 @@ class lldp (packet_base):
                % (len(array),))
       return
 
-    if type in lldp.tlv_parsers:
-      self.tlvs.append(lldp.tlv_parsers[type](array[0: 2 + length]))
-      return 2 + length
-    else:
-      self.msg('(lldp tlv parse) warning unknown tlv type (%u)'
-               % (type,))
-      self.tlvs.append(unknown_tlv(array[0: 2 + length]))
-      return 2 + length
+    try:
+      if type in lldp.tlv_parsers:
+        self.tlvs.append(lldp.tlv_parsers[type](array[0: 2 + length]))
+        return 2 + length
+      else:
+        self.msg('(lldp tlv parse) warning unknown tlv type (%u)'
+                 % (type,))
+        self.tlvs.append(unknown_tlv(array[0: 2 + length]))
+        return 2 + length
+    except Exception as e:
+      self.msg('(lldp tlv parse) warning malformed TLV type %u: %s'
+               % (type, e))
+      return
 
   def parse (self, raw):
     assert isinstance(raw, bytes)
